@@ -73,6 +73,12 @@ class Workers:
                 p.kill()
 
 
+def _pickled(obj):
+    import base64
+    import pickle
+    return base64.b64encode(pickle.dumps(obj)).decode('ascii')
+
+
 def _grammar(lang):
     from depccg.grammar import en, ja
     return en if lang == 'en' else ja
@@ -122,6 +128,11 @@ def check_case(case, workers=None, info=None):
             for hs, ans in workers.ask(q):
                 if ans.get('ok') != serialise(r1):
                     bad('process-dependent', f'{tag}: under PYTHONHASHSEED={hs} got {ans}, here {serialise(r1)}')
+            qp = {'lang': lang, 'op': 'unary', 'pickled': _pickled({'x': x, 'table': table})}
+            for hs, ans in workers.ask(qp):
+                if ans.get('ok') != serialise(r1):
+                    bad('process-dependent/pickled-arguments', f'{tag}: with the table pickled into a process under '
+                        f'PYTHONHASHSEED={hs} got {ans}, here {serialise(r1)}')
         return fails
 
     mx, my = from_json(case['x']), from_json(case['y'])
@@ -194,6 +205,14 @@ def check_case(case, workers=None, info=None):
             for hs, ans in answers:
                 if ans != first:
                     bad('process-dependent', f'{tag} with seen rules: differs between hash seeds')
+            if not shipped:
+                seen_objs = {(to_cat(a), to_cat(b)) for a, b in seen_m}
+                here = serialise(g.apply_binary_rules(x, y, seen_rules=seen_objs))     # (hashes every member here)
+                qp = dict(q, pickled=_pickled({'x': x, 'y': y, 'seen': seen_objs}))
+                for hs, ans in workers.ask(qp):
+                    if ans.get('ok') != here:
+                        bad('process-dependent/pickled-arguments', f'{tag}: with the seen-rule set pickled into a process '
+                            f'under PYTHONHASHSEED={hs} got {ans}, here {here}')
     return fails
 
 
